@@ -22,6 +22,10 @@ func extra(cmd string, args []string) {
 		cmdProbes(args)
 	case "manip":
 		cmdManip(args)
+	case "shrink":
+		cmdShrink(args)
+	case "gocode":
+		cmdGoCode(args)
 	default:
 		fmt.Fprintln(os.Stderr, "unknown command", cmd)
 		os.Exit(2)
